@@ -27,6 +27,7 @@
 -/
 import RsjProps.C01Eval
 import RsjProofs.EvalNoNaNRun
+import RsjProofs.EvalNoNaNPure
 namespace Rsj.Eval
 open Rsj.Core Rsj.Analyze Rsj.Eval.Scope Rsj.Eval.NoNaN
 
@@ -63,6 +64,14 @@ theorem C01_eval_request_no_internal_error (F : FloatNaNFacts) (hp : PureNaNFree
 
 example : NoNaNStore {} := NN_empty
 
+/-- **C01 (evaluator model), full statement, with the smaller hypothesis.**  `PureNaNFree` follows from
+    `FloatNaNFacts` for every pure builtin but `std.mantissa` (`PureNaNFree_of_mantissa`,
+    RsjProofs/EvalNoNaNPure.lean); what remains is the statement that the mantissa computed by `frexpBits`
+    from a number that is not NaN is not NaN. -/
+theorem C01_eval_no_internal_error' (F : FloatNaNFacts) (hm : SpecNN (pureSpec .mantissa)) :
+    C01_eval_no_internal_error_full :=
+  C01_eval_no_internal_error F (PureNaNFree_of_mantissa F hm)
+
 end Rsj.Eval
 
 open Rsj.Eval in
@@ -71,3 +80,5 @@ open Rsj.Eval in
 #print axioms C01_eval_no_internal_error
 open Rsj.Eval in
 #print axioms C01_eval_request_no_internal_error
+open Rsj.Eval in
+#print axioms C01_eval_no_internal_error'
